@@ -19,6 +19,7 @@ INVARIANT NeverUnverified
 INVARIANT OfflineWhenCached
 INVARIANT ServedWhenCached
 INVARIANT RetryBound
+INVARIANT ErrorClassOK
 INVARIANT NoCrossTalk
 INVARIANT ProbeDone
 PROPERTY OfflineStep
